@@ -258,10 +258,12 @@ def gphp_cli(p, tmpdir):
 def bphp_params(rng, tier):
     top = 4 if tier == 'quick' else 6
     out = [dict(m=m, n=n) for m in range(top + 1) for n in range(top + 3)]
-    k = 8 if tier == 'quick' else 30
-    hi = (25, 40) if tier == 'quick' else (60, 100)
+    k = 6 if tier == 'quick' else 14
+    hi = (20, 40) if tier == 'quick' else (40, 70)
     for i in range(k):
         out.append(dict(m=rng.randint(2, hi[0]), n=rng.randint(2, hi[1]), big=True))
+    if tier != 'quick':
+        out.append(dict(m=12, n=129, big=True))
     for n in (8, 9, 16, 17, 31, 32, 33, 64):
         out.append(dict(m=3, n=n, big=True))
     return out
@@ -620,7 +622,8 @@ FAMILIES = [
          numvar_doc=bphp_numvar, decode_ok=bphp_decode_ok, exists=bphp_exists, cli=bphp_cli,
          site='BinaryPigeonholePrinciple',
          # documented domain: pigeons, holes >= 0.  The code (and the faithful model) raise below 1.
-         documented_valid=lambda p: p['m'] >= 0 and p['n'] >= 0),
+         documented_valid=lambda p: p['m'] >= 0 and p['n'] >= 0,
+         spec_request=lambda p: cmd('fam_bphp_spec', p['m'], p['n'])),
     dict(name='rphp', prop='C01', params=rphp_params, build=rphp_build,
          request=lambda p: cmd('fam_rphp', p['m'], p['r'], p['n']),
          numvar_doc=lambda p: p['m'] * p['r'] + p['r'] * p['n'] + p['r'], decode_ok=rphp_decode_ok, exists=rphp_exists,
